@@ -83,8 +83,25 @@ def writer_finalisation(ctx, rid):
         if isinstance(p, ast.Try) and (p.finalbody or p.handlers):
             in_finally = True
         p = m.parent.get(p)
-    ctx.emit(rid, True, BAMFUNC, ynode, 'sorted_bam_file yield is ' + ('inside' if in_finally else 'not inside') + ' a try block (informational)',
-             key='sorted_bam_file:yield-try', nontrivial=False)
+    # a failure inside the with-body must propagate: the generator must not catch-and-return (that would suppress the exception
+    # and let the caller run on to its success marker), nor finalise (sort/index) a partial file as if it were complete
+    swallow = []
+    p = m.parent.get(ynode)
+    child = ynode
+    while p is not None and p is not f:
+        if isinstance(p, ast.Try) and any(any(x is child for x in ast.walk(b)) for b in p.body):
+            for h in p.handlers:
+                hcfg = CFG(h.body, exceptions=False)
+                ends = {hcfg.nodes[pp[-1][0]].info for pp, _ in hcfg.paths()}
+                if ends - {'raise'}:
+                    swallow.append((h, sorted(ends)))
+        child = p
+        p = m.parent.get(p)
+    ctx.emit(rid, not swallow, BAMFUNC, swallow[0][0] if swallow else ynode,
+             'sorted_bam_file: ' + ('an exception raised in the with-body is caught by the context manager and not re-raised '
+                                    f'(handler ends in {swallow[0][1]}): the failure is suppressed and the caller continues to its success marker' if swallow else
+                                    'exceptions raised in the with-body propagate to the caller (no swallowing handler around the yield)'),
+             key='sorted_bam_file:body-failure-propagates', what='sorted_bam_file suppresses exceptions raised inside the with-body')
 
     # ---- sort_and_index ------------------------------------------------------------------
     f = ctx.fn(BAMFUNC, 'sort_and_index')
